@@ -84,7 +84,16 @@ C09Race == IsEv("C09Race") /\ Consume(Chk("C09.data-race", Trace[l].site, FALSE)
 C09Total == IsEv("C09Total") /\ LET e == Trace[l] IN
               Consume(Chk("C09.compute.panics-under-lock", e.panics, Len(e.panics) = 0) + Chk("C09.lock.left-held", "total", e.lockfree = 1))
 
+\* C09Pure: a call that is not a setter leaves its receiver as it was (a digest of every accessor of the receiver,
+\* taken before and after) and gives the same result when it is repeated
+C09Pure ==
+  /\ IsEv("C09Pure")
+  /\ LET e == Trace[l]
+     IN Consume(SumSeq(e.rows, LAMBDA r :
+                  Chk("C09.pure.call-changes-its-receiver", << e.at, r[1], r[2], r[3] >>, r[4] = r[5])
+                  + Chk("C09.pure.same-call-different-result", << e.at, r[1], r[2], r[3] >>, r[6] = r[7])))
+
 TraceInit == KitInit
-TraceNext == C09Run \/ C09Hist \/ C09Stress \/ C09Race \/ C09Total
+TraceNext == C09Run \/ C09Hist \/ C09Stress \/ C09Race \/ C09Total \/ C09Pure
 TraceSpec == TraceInit /\ [][TraceNext]_tvars
 =============================================================================
